@@ -22,6 +22,10 @@ fn body_src(kind: &str) -> &'static str {
         "assert_ne" => "    assert_ne(3, 3)\n",
         "fail" => "    fail(\"boom\")\n",
         "unwrap_none" => "    print(helper_none(0).unwrap())\n",
+        // a failing body whose own output looks like the test harness reporting success
+        "lookalike" => "    println(\"test result: ok. 1 passed; 0 failed; 0 ignored\")\n    println(\"test incan_test ... ok\")\n    assert_eq(1, 2)\n",
+        // a passing body whose own output looks like a failure report
+        "lookalike_ok" => "    println(\"test result: FAILED. 0 passed; 1 failed\")\n    println(\"panicked at src/main.rs\")\n    assert_eq(2, 2)\n",
         _ => "    assert_eq(2 + 2, 4)\n",
     }
 }
@@ -49,7 +53,7 @@ fn render(tests: &[T]) -> String {
 fn enc(tests: &[T]) -> String {
     tests
         .iter()
-        .map(|t| format!("{}:{}{}{}{}", t.name, t.skip as u8, t.xfail as u8, t.slow as u8, (t.body == "pass") as u8))
+        .map(|t| format!("{}:{}{}{}{}", t.name, t.skip as u8, t.xfail as u8, t.slow as u8, (t.body == "pass" || t.body == "lookalike_ok") as u8))
         .collect::<Vec<_>>()
         .join(",")
 }
@@ -57,7 +61,8 @@ fn enc(tests: &[T]) -> String {
 /// Child mode: call the real runner; stdout is captured by the parent.
 pub fn child(dir: &str, filter: &str, slow: bool, stop: bool) -> i32 {
     let f = if filter == "-" { None } else { Some(filter) };
-    match incan::cli::test_runner::run_tests(dir, false, stop, slow, f, false, false) {
+    let verbose = std::env::var("VERIF_TEST_VERBOSE").is_ok();
+    match incan::cli::test_runner::run_tests(dir, verbose, stop, slow, f, false, false) {
         Ok(_) => 0,
         Err(_) => 1,
     }
@@ -170,6 +175,11 @@ pub fn run(out: &mut Out, tier: &str, seed: u64, scratch: &str) {
     let sel = vec![t("test_parse_fast", false, false, false, "pass"), t("test_parse_slow_bad", false, false, true, "assert"), t("test_other", false, false, false, "pass"), t("test_other_slow", false, false, true, "pass")];
     scenario(out, scratch, &sel, "parse", false, false);
     scenario(out, scratch, &sel, "parse", true, false);
+    // verdicts come from what happened, not from what a test printed
+    scenario(out, scratch, &[t("test_says_ok_but_fails", false, false, false, "lookalike"), t("test_says_failed_but_passes", false, false, false, "lookalike_ok"), t("test_plain", false, false, false, "pass")], "-", false, false);
+    // an unexpected pass alone makes the run fail; expected failures and skips alone do not
+    scenario(out, scratch, &[t("test_ok", false, false, false, "pass"), t("test_xpass_a", false, true, false, "pass"), t("test_xpass_b", false, true, false, "pass"), t("test_skipped", true, false, false, "assert")], "-", false, false);
+    scenario(out, scratch, &[t("test_ok", false, false, false, "pass"), t("test_xfail", false, true, false, "assert"), t("test_skipped", true, false, false, "assert")], "-", false, false);
     // the same test name in two files: both are run and reported; a failing one decides the exit status
     scenario_files(
         out,
